@@ -204,7 +204,7 @@ struct OpScope {
   std::set<uint64_t> expect_freed, expect_born;
   OpScope(Hist& hh, const HOp& op, const char* p) : h(hh), props(p) { ctx = fmt("op %s(%llu,%llu,%llu,%llu)", op_name(op.code), (unsigned long long)op.a, (unsigned long long)op.b, (unsigned long long)op.c, (unsigned long long)op.d); }
   bool snapped = false;
-  void snapshot(const HOp& op) { if (!snapped && h.image_check && op.fk != F_NONE) { image = sa_snapshot(); snapped = true; } }
+  void snapshot(const HOp& op) { static const bool nofill = getenv("SIM_NOFILL") != nullptr; if (!snapped && h.image_check && op.fk != F_NONE && !nofill) { image = sa_snapshot(); snapped = true; } }
   void begin(const HOp& op) {
     FaultSpec f; f.kind = op.fk; f.k = op.fkk; f.seed = op.a * 31 + op.b;
     snapshot(op);
